@@ -3,7 +3,7 @@
     Theorem statements only; every proof lives in Proofs/AdmFactsB.v. *)
 From Coq Require Import List Bool NArith ZArith String.
 From PSA Require Import Base.Str Model.Api Model.Pod Model.Checks Model.Registry Model.Admission
-     Model.Namespace Spec.P05 Spec.PAdm Proofs.AdmFactsB.
+     Model.Namespace Spec.P05 Spec.PAdm Proofs.AdmFactsB Proofs.AdmFactsD.
 Import ListNotations.
 Local Open Scope string_scope.
 
@@ -98,4 +98,23 @@ Example C07_ex_expiry :
              (ONamespace "ns" []) None in
   let o := validate ex07_cfg ex07_deny_all r (World None "" (Some [ex07_pod; ex07_pod; ex07_pod]) (Some 0) 0) in
   (rs_allowed (fst o), List.length (eval_events (snd o))) = (true, 1).
+Proof. vm_compute. reflexivity. Qed.
+
+(** expiry during a namespace update never blocks it and is reported: when the
+    context expires after pod #k and pods remain unchecked, the update is
+    allowed, a warning says how many pods were checked, and exactly k+1 pods
+    were evaluated (proof in Proofs/AdmFactsD.v) *)
+Theorem C07_expiry_reported : forall c ev r w, P07_expiry_reported c r w (validate c ev r w) = true.
+Proof. exact C07_expiry_reported_proof. Qed.
+Print Assumptions C07_expiry_reported.
+
+(** non-vacuous: the premise holds (dry run made, 1 < 3 pods) and the conclusion is observed *)
+Example C07_ex_expiry_reported :
+  let r := Request "" "namespaces" "" "" "ns" "u" OpUpdate
+             (ONamespace "ns" [("pod-security.kubernetes.io/enforce", "restricted")])
+             (ONamespace "ns" []) None in
+  let w := World None "" (Some [ex07_pod; ex07_pod; ex07_pod]) (Some 0) 0 in
+  let o := validate ex07_cfg ex07_deny_all r w in
+  (existsb is_list (snd o), rs_allowed (fst o), hd "" (rs_warnings (fst o)), List.length (eval_events (snd o)))
+  = (true, true, "new PodSecurity enforce level only checked against the first 1 of 3 existing pods", 1).
 Proof. vm_compute. reflexivity. Qed.
